@@ -98,6 +98,8 @@ class RspHandler:
         if pkt[0] != "$" or pkt[-3] != "#":
             raise ValueError(f"bad packet {pkt}")
         crc = sum(ord(c) for c in pkt[1:-3]) % 256
+        if any(c not in "0123456789abcdefABCDEF" for c in pkt[-2:]):
+            raise ValueError(f"bad checksum digits in {pkt}")
         crc2 = int(pkt[-2:], 16)
         if crc != crc2:
             raise ValueError(f"Checksum {crc} != {crc2}")
